@@ -161,6 +161,7 @@ func (cx *Ctx) checkErrReply(r *Report, rule, key string, fn *ssa.Function) int 
 			r.Fail(rule, ckey, w.InstrPos(call), "the error result of "+calleeName(call)+" is never tested")
 			continue
 		}
+		nilSides := fx.errNilSides(e)
 		if !s.Decided {
 			r.Undecided(rule, ckey, w.InstrPos(call), s.Why)
 			continue
@@ -178,6 +179,19 @@ func (cx *Ctx) checkErrReply(r *Report, rule, key string, fn *ssa.Function) int 
 				}
 			}
 			if at < 0 {
+				continue
+			}
+			// a path that found the error non-nil and later finds the same error nil is not a path (`if err == nil &&
+			// x == nil { err = ... }; if err != nil { reply; return }`)
+			infeasible := false
+			for _, b := range p.Path.Blocks[at+1:] {
+				for _, nb := range nilSides {
+					if b == nb && len(nb.Preds) == 1 {
+						infeasible = true
+					}
+				}
+			}
+			if infeasible {
 				continue
 			}
 			nPaths++
@@ -437,7 +451,7 @@ func (cx *Ctx) checkErrDiscipline(r *Report, fns []*ssa.Function) int {
 						}
 						for ri := range p.Ret.Results {
 							rv := fx.retVal(p, ri)
-							if _, isC := rv.(*ssa.Const); isC {
+							if _, isC := rv.(*ssa.Const); isC || constCallResult(rv) != nil {
 								continue // a constant verdict / zero value: nothing of the failed call is passed on
 							}
 							bad = "after " + shortCallee(calleeName(call)) + " failed the function goes on and returns " + fx.path(rv) + " as if nothing had happened (" + w.InstrPos(p.Ret) + ")"
